@@ -17,6 +17,7 @@ CONSTANTS
   StartConnected = TRUE
   Grid = 0
   TrackKA = FALSE
+  NAddrs = {1}
   SubKinds = {"A", "*"}
 SPECIFICATION MCSpec
 VIEW mcview
